@@ -5,6 +5,8 @@ import vlib, k3lib, k2lib
 
 FOLLOWUP = ['batch p66757031:@7:1,p61:@9:2 0', 'batch p66757032:@7:3 1', 'del 62', 'flush', 'scan -', 'reopen', 'scan -', 'layout']
 
+FOLLOWUP_NOFLUSH = [o for o in FOLLOWUP if o != 'flush']     # the recovered log keeps being appended to and is read again at the reopen
+
 def followup_expect(content):
     m = dict(content)
     m[b'fup1'] = '@7:1'; m[b'a'] = '@9:2'; m[b'fup2'] = '@7:3'; m.pop(b'b', None)
@@ -35,9 +37,13 @@ def explore_history(args):
     stats['lift_s'] = round(time.time() - t_lift, 1)
     info = k3lib.batch_positions(evs, ops, batches, calls)
     points = list(range(1, len(evs) + 1))
+    # crash points BETWEEN two fragments of one log/MANIFEST record (consecutive writes to the same file inside one call)
+    frag_points = {i for i in range(1, len(evs)) if evs[i]['k'] == 'W' and evs[i - 1]['k'] == 'W' and evs[i]['id'] == evs[i - 1]['id']
+                   and (evs[i]['name'].endswith('.log') or evs[i]['name'].startswith('MANIFEST'))}
     if len(points) > max_points:
         # keep every point around fsync / rename / unlink / create (where the proofs split cases), sample the rest
         hot = {i + d for i, e in enumerate(evs) if e['k'] in ('S', 'D', 'R', 'U', 'C', 'X') for d in (0, 1)}
+        hot |= frag_points
         hot = [p for p in points if p in hot]
         rest = [p for p in points if p not in hot]
         while len(hot) > max_points: hot.pop(rng.below(len(hot)))
@@ -57,7 +63,9 @@ def explore_history(args):
             if 'CURRENT' not in img and not any(n.startswith('MANIFEST') for n in img):
                 continue     # database never came into existence: nothing to recover (create_if_missing would make a fresh one)
             dst = os.path.join(work, 'img')
-            fu = FOLLOWUP if (stats['recoveries'] % 5 == 0) else None
+            fu = None
+            if p in frag_points and opts.get('reuse_logs'): fu = FOLLOWUP_NOFLUSH
+            elif stats['recoveries'] % 5 == 0: fu = FOLLOWUP if stats['recoveries'] % 10 == 0 else FOLLOWUP_NOFLUSH
             rc2, rcalls, rops = k3lib.recover_and_read(k2, img, shadow, dst, opts, followup=fu)
             stats['recoveries'] += 1
             where = {'crash_point': p, 'mode': mode, 'event': evs[p - 1] if p - 1 < len(evs) else None}
@@ -209,3 +217,38 @@ def check_protocol(evs, shadow, calls, ops, model, k2=None, opts=None, batches=N
     finally:
         m.close()
     return out
+
+
+def failed_install_segment(rep, tier, seed, label='gc-after-failed-install'):
+    """No live file may be removed even when installing a version fails: fail every MANIFEST append / fsync and
+    directory fsync once (the background error must stop obsolete-file removal), then reopen without faults:
+    the open must succeed (no table named by the MANIFEST is missing)."""
+    import c12
+    out = vlib.scratch_dir(); lib = vlib.build_lib(out, 'nothread')
+    k3 = vlib.build_k3(out, 'nothread', lib=lib); k2 = vlib.build_k2(out, 'nothread', lib=lib)
+    rng = vlib.Rng(seed ^ 0xC13F)
+    jobs = []
+    for h in range(2 if tier == 'quick' else 20):
+        opts = {'write_buffer': 65536, 'reuse_logs': 0, 'paranoid': h % 2}
+        ops, batches = k3lib.gen_write_history(rng, nops=30, reopen=(h % 2 == 1))
+        ops += ['crange 0 * *', 'crange 1 * *', 'compact * *'] + (['reopen', 'batch p6d7a7a7a7a:@4:1 0', 'reopen'] if h % 2 == 1 else [])
+        if h % 2 == 1: batches.append({'op_index': len(ops) - 2, 'sync': False, 'updates': [(b'mzzzz', '@4:1')]})
+        work = os.path.join(out, 'b%d' % h); os.makedirs(work, exist_ok=True)
+        rc, o, e, evs, sh = k3lib.run_traced(k3, os.path.join(work, 'db'), opts, ops, work, fail='999999999:5:0:0', logidx=True)
+        shutil.rmtree(work, ignore_errors=True)
+        sites = [ev['idx'] for ev in evs if ev['k'] == 'I' and ((ev['name'].startswith('MANIFEST') and ev['what'] in ('write', 'fsync')) or (ev['what'] == 'fsync' and ev['name'] == '.'))]
+        dirsites = [ev['idx'] for ev in evs if ev['k'] == 'I' and ev['what'] == 'fsync' and ev['name'] == '.']
+        if tier == 'quick' and len(sites) > 40:
+            sites = sorted(set(dirsites[-12:]) | set(rng.choice(sites) for _ in range(30)))
+        for k in sites:
+            jobs.append((k3, k2, os.path.join(out, 'f%d_%d' % (h, len(jobs))), opts, ops, batches, '%d:5:0:%d' % (k, rng.below(2)), 'h%d' % h))
+    with ThreadPoolExecutor(vlib.NCPU) as ex:
+        results = list(ex.map(c12.one_fault_run, jobs))
+    n = 0
+    for job, r in zip(jobs, results):
+        rep.evaluated(1); n += 1
+        for p in r['problems']:
+            if p['kind'] in ('reopen-failed', 'reopen-crash', 'scan-error-after-reopen', 'crash', 'hang'):
+                rep.violation({'kind': 'K3-' + label + '-' + p['kind'], 'problem': p, 'options': job[3], 'history': job[4], 'fail': job[6]})
+    rep.cov['failed_install_runs'] = n
+
